@@ -63,8 +63,21 @@ def ctx_from(dump, old):
     return {'cur': cur, 'old': dict(old), 'serial': serial}
 
 
+def _stable(o):
+    # frozensets print in insertion-dependent order: serialise them sorted so equal states hash equally
+    if isinstance(o, (frozenset, set)):
+        return ('\x00set',) + tuple(sorted(_stable(x) for x in o))
+    if isinstance(o, tuple):
+        return tuple(_stable(x) for x in o)
+    if isinstance(o, list):
+        return tuple(_stable(x) for x in o)
+    if isinstance(o, dict):
+        return ('\x00dict',) + tuple(sorted((_stable(k), _stable(v)) for k, v in o.items()))
+    return o
+
+
 def keyhash(obj):
-    return hashlib.blake2b(repr(obj).encode(), digest_size=16).digest()
+    return hashlib.blake2b(repr(_stable(obj)).encode(), digest_size=16).digest()
 
 
 # ---- worker side -----------------------------------------------------------------------------------
@@ -320,7 +333,11 @@ class Search:
                                   'dumph': st.dumph, 'events': evs, 'flags': self.flags})
                 nxt = []
                 aborted = False
+                timed_out = False
                 for res in pool.imap_unordered(_expand_task, tasks, chunksize=1):
+                    if run.out_of_time(8):
+                        timed_out = True
+                        break
                     if 'error' in res:
                         raise HarnessError('%s: %s' % (self.label, res['error']))
                     sid = res['sid']
@@ -353,6 +370,9 @@ class Search:
                                 aborted = True
                                 continue
                             nxt.append(self._add(sid, rec))
+                if timed_out:
+                    run.cap('%s: deadline reached inside depth %d (levels below it are complete)' % (self.label, depth + 1))
+                    break
                 if aborted:
                     run.cap('%s: state budget %d reached at depth %d' % (self.label, self.maxstates, depth + 1))
                     break
